@@ -261,4 +261,318 @@ theorem C06_keyed_region {pre post : List Nat} (hs : Siblings pre post) (d : Key
       rw [hj] at e; cases e
       have := hlt t (List.mem_of_getElem? ht); omega
 
+/-! ### histories of a mounted `Keyed` -/
+
+/-- mounting on a list with unique keys succeeds and establishes the invariant -/
+theorem keyedDomMount_inv {pre post : List Nat} (l0 : List Item) (h0 : (keys l0).Nodup) :
+    ∃ d0, keyedDomMount pre post l0 = .ok d0 ∧ KDInv pre post d0 ∧ d0.s.items = l0 := by
+  have hc0 : KCoh KState.init := by simp [KCoh, KState.init, keys]
+  obtain ⟨s0, evs, hstep, sp⟩ := mapKeyed_spec KState.init l0 hc0 h0
+  exact ⟨⟨s0, layout pre post s0.mapped⟩, by simp [keyedDomMount, hstep], ⟨sp.coh, rfl⟩, sp.items⟩
+
+/-- the states of a `Keyed` reachable from a mount by updates with unique keys -/
+inductive KDReach (pre post : List Nat) : KeyedDom → Prop
+  | mount {l0 : List Item} {d : KeyedDom} :
+      (keys l0).Nodup → keyedDomMount pre post l0 = .ok d → KDReach pre post d
+  | step {d d' : KeyedDom} {new : List Item} :
+      KDReach pre post d → (keys new).Nodup → keyedDomStep d new = .ok d' → KDReach pre post d'
+
+/-- `Renders d k n`: the list contains an item with key `k` and the child `n` between the markers, at
+that item's position, renders it -/
+def Renders (d : KeyedDom) (k n : Nat) : Prop :=
+  ∃ (j : Nat) (it : Item), d.s.items[j]? = some it ∧ it.key = k ∧ (nodesBetween d.ch 1 2)[j]? = some n
+
+/-- a chain of updates with unique keys throughout which key `k` stays in the list -/
+inductive KeepsKey (k : Nat) (d : KeyedDom) : KeyedDom → Prop
+  | refl : KeepsKey k d d
+  | step {d' d'' : KeyedDom} {new : List Item} :
+      KeepsKey k d d' → (keys new).Nodup → k ∈ keys new → keyedDomStep d' new = .ok d'' → KeepsKey k d d''
+
+/-- under the invariant every item is rendered, by exactly one node, which is a child -/
+theorem renders_total {pre post : List Nat} (hs : Siblings pre post) {d : KeyedDom} (h : KDInv pre post d)
+    {j : Nat} {it : Item} (hj : d.s.items[j]? = some it) :
+    ∃ n, Renders d it.key n ∧ n ∈ d.ch ∧ 10 ≤ n := by
+  obtain ⟨hc, hch⟩ := h
+  have hjl : j < d.s.mapped.length := by
+    have := (List.getElem?_eq_some_iff.mp hj).1
+    have := hc.1; omega
+  have hnb := nodesBetween_layout hs hc.2.2.1
+  refine ⟨d.s.mapped[j] + 10, ⟨j, it, hj, rfl, ?_⟩, ?_, by omega⟩
+  · rw [hch, hnb]; exact getElem?_map_node.mpr ⟨_, by simp [hjl], rfl⟩
+  · rw [hch, node_mem_layout hs]; exact List.getElem_mem hjl
+
+theorem renders_unique {pre post : List Nat} {d : KeyedDom} (h : KDInv pre post d) {k n n' : Nat}
+    (h1 : Renders d k n) (h2 : Renders d k n') : n = n' := by
+  obtain ⟨j, a, hj, hk, hn⟩ := h1
+  obtain ⟨j', a', hj', hk', hn'⟩ := h2
+  have := keys_inj h.1.2.2.2.2 hj hj' (by rw [hk, hk'])
+  subst this
+  rw [hn] at hn'; exact Option.some.inj hn'
+
+/-- **C06 for `Keyed`, along histories.** (1) Every state reachable from a mount by updates with unique
+keys satisfies the invariant, hence every further update with unique keys succeeds and satisfies
+`KeyedRegionSpec`. (2) Along every chain of such updates throughout which a key stays in the list, the
+node that renders the key stays the very same node. -/
+theorem C06_keyed_history {pre post : List Nat} (hs : Siblings pre post) :
+    (∀ d, KDReach pre post d →
+      KDInv pre post d ∧
+      ∀ new, (keys new).Nodup → ∃ d', keyedDomStep d new = .ok d' ∧ KeyedRegionSpec pre post d new d') ∧
+    (∀ (k : Nat) (d d' : KeyedDom), KDInv pre post d → KeepsKey k d d' →
+      KDInv pre post d' ∧ ∀ n, Renders d k n → Renders d' k n) := by
+  constructor
+  · intro d hr
+    have hinv : KDInv pre post d := by
+      induction hr with
+      | mount h0 hm =>
+        obtain ⟨d0, e, hi, _⟩ := keyedDomMount_inv (pre := pre) (post := post) _ h0
+        rw [hm] at e; cases e; exact hi
+      | step _ hnew hstep ih =>
+        obtain ⟨d2, e, sp⟩ := C06_keyed_region hs _ _ ih hnew
+        rw [hstep] at e; cases e; exact sp.inv
+    exact ⟨hinv, fun new hnew => C06_keyed_region hs d new hinv hnew⟩
+  · intro k d d' hinv hchain
+    induction hchain with
+    | refl => exact ⟨hinv, fun n h => h⟩
+    | @step d2 d3 new _ hnew hk hstep ih =>
+      obtain ⟨hinv1, ih⟩ := ih
+      obtain ⟨d4, e, sp⟩ := C06_keyed_region hs _ _ hinv1 hnew
+      rw [hstep] at e; cases e
+      refine ⟨sp.inv, ?_⟩
+      intro n hn
+      obtain ⟨i, a, hi, hka, hni⟩ := ih n hn
+      obtain ⟨j, b, hj, hkb⟩ := mem_keys.mp hk
+      obtain ⟨m, hm1, hm2⟩ := sp.kept i j a b hi hj (by rw [hka, hkb])
+      rw [hni] at hm1; cases hm1
+      exact ⟨j, b, by rw [sp.items]; exact hj, hkb, hm2⟩
+
+/-- the reachable states together with the `born` log of `Props/C07.lean` (`born k` = the id of the
+`map_fn` call made in the update in which key `k` most recently entered the list) -/
+inductive KDReachB (pre post : List Nat) : KeyedDom → (Nat → Option Nat) → Prop
+  | mount {l0 : List Item} {d : KeyedDom} {evs : List Ev} :
+      (keys l0).Nodup → mapKeyedStep KState.init l0 = .ok (d.s, evs) → keyedDomMount pre post l0 = .ok d →
+      KDReachB pre post d (bornStep (fun _ => none) l0 evs)
+  | step {d d' : KeyedDom} {born : Nat → Option Nat} {new : List Item} {evs : List Ev} :
+      KDReachB pre post d born → (keys new).Nodup → mapKeyedStep d.s new = .ok (d'.s, evs) →
+      keyedDomStep d new = .ok d' → KDReachB pre post d' (bornStep born new evs)
+
+theorem KDReachB.reach {pre post : List Nat} {d : KeyedDom} {born : Nat → Option Nat}
+    (h : KDReachB pre post d born) : KDReach pre post d ∧ KReach d.s born := by
+  induction h with
+  | mount h0 hs hm => exact ⟨.mount h0 hm, .step .init h0 hs⟩
+  | step _ hnew hs hstep ih => exact ⟨.step ih.1 hnew hstep, .step ih.2 hnew hs⟩
+
+/-- **The node of a key is the node created when the key most recently entered.** Along any history, the
+child between the markers at the position of an item with key `k` is the node `born k + 10`. -/
+theorem C06_keyed_history_born {pre post : List Nat} (hs : Siblings pre post) {d : KeyedDom}
+    {born : Nat → Option Nat} (h : KDReachB pre post d born) :
+    ∀ (j : Nat) (it : Item), d.s.items[j]? = some it →
+      ∃ c, born it.key = some c ∧ (nodesBetween d.ch 1 2)[j]? = some (c + 10) := by
+  obtain ⟨hr, hk⟩ := h.reach
+  obtain ⟨⟨hc, hch⟩, _⟩ := (C06_keyed_history hs).1 d hr
+  obtain ⟨_, htr, _, _⟩ := mapKeyed_history hk
+  intro j it hj
+  obtain ⟨e1, e2⟩ := htr j it hj
+  obtain ⟨c, hcb⟩ := Option.isSome_iff_exists.mp e2
+  refine ⟨c, hcb, ?_⟩
+  rw [hch, nodesBetween_layout hs hc.2.2.1]
+  exact getElem?_map_node.mpr ⟨c, by rw [e1, hcb], rfl⟩
+
+/-! ## `Indexed` -/
+
+/-- What one update of a mounted `Indexed` establishes. -/
+structure IndexedRegionSpec (pre post : List Nat) (d : IndexedDom) (new : List Item) (d' : IndexedDom) : Prop where
+  inv : IDInv pre post d'
+  /-- the mapping half is the `map_indexed` update, with its own specification -/
+  mapping : ∃ evs, mapIndexedStep d.s new = .ok (d'.s, evs) ∧ IndexedSpec d.s new d'.s evs
+  items : d'.s.items = new
+  /-- the children between the markers are exactly the nodes of the new list's positions, in order -/
+  region : nodesBetween d'.ch 1 2 = d'.s.mapped.map (· + 10)
+  regionLength : (nodesBetween d'.ch 1 2).length = new.length
+  /-- `pre`, the markers and `post` are in place around the region; nothing is duplicated -/
+  children : d'.ch = pre ++ [1] ++ nodesBetween d'.ch 1 2 ++ [2] ++ post
+  nodup : d'.ch.Nodup
+  /-- a position whose value is unchanged keeps its node -/
+  reused : ∀ j : Nat, j < new.length → d.s.items[j]? = new[j]? →
+    ∃ n, (nodesBetween d.ch 1 2)[j]? = some n ∧ (nodesBetween d'.ch 1 2)[j]? = some n
+  /-- a position whose value changed or that is new is rendered by a node that was not a child before -/
+  fresh : ∀ j : Nat, j < new.length → d.s.items[j]? ≠ new[j]? →
+    ∃ c, d'.s.mapped[j]? = some c ∧ d.s.next ≤ c ∧ (nodesBetween d'.ch 1 2)[j]? = some (c + 10) ∧ c + 10 ∉ d.ch
+  /-- the old node of a position that is truncated or whose value changed is no longer a child -/
+  gone : ∀ (j n : Nat), (new.length ≤ j ∨ d.s.items[j]? ≠ new[j]?) →
+    (nodesBetween d.ch 1 2)[j]? = some n → n ∉ d'.ch
+
+/-- **C06 for `Indexed`.** From a state satisfying the invariant, every update succeeds and the resulting
+children satisfy `IndexedRegionSpec`. -/
+theorem C06_indexed_region {pre post : List Nat} (hs : Siblings pre post) (d : IndexedDom) (new : List Item)
+    (h : IDInv pre post d) :
+    ∃ d', indexedDomStep d new = .ok d' ∧ IndexedRegionSpec pre post d new d' := by
+  obtain ⟨s, ch⟩ := d
+  obtain ⟨hc, hch⟩ := h
+  simp only at hc hch
+  subst hch
+  obtain ⟨s', evs, hstep, sp⟩ := mapIndexed_spec s new hc
+  have hM : s.mapped.Nodup := hc.2.2.2
+  have hM' : s'.mapped.Nodup := sp.coh.2.2.2
+  have hlt : ∀ t ∈ s.mapped, t < s.next := hc.2.2.1
+  have hdom := domUpdate_layout hs hM hM'
+  have hnb := nodesBetween_layout hs hM
+  have hnb' := nodesBetween_layout hs hM'
+  refine ⟨⟨s', layout pre post s'.mapped⟩, by simp [indexedDomStep, hstep, hdom], ?_⟩
+  constructor
+  · exact ⟨sp.coh, rfl⟩
+  · exact ⟨evs, hstep, sp⟩
+  · exact sp.items
+  · exact hnb'
+  · simp only [hnb', List.length_map]; exact sp.length
+  · simp only [hnb']; rfl
+  · exact layout_nodup hs hM'
+  · intro j hj he
+    dsimp only at he ⊢
+    have hjl : j < s.mapped.length := by
+      have : s.items[j]? ≠ none := by rw [he]; simp [hj]
+      have : j < s.items.length := by simpa using this
+      have := hc.1; omega
+    have e := sp.reused j hj he
+    refine ⟨s.mapped[j] + 10, ?_, ?_⟩
+    · simp only [hnb]; exact getElem?_map_node.mpr ⟨_, by simp [hjl], rfl⟩
+    · simp only [hnb']; exact getElem?_map_node.mpr ⟨_, by rw [e]; simp [hjl], rfl⟩
+  · intro j hj hne
+    dsimp only at hne ⊢
+    obtain ⟨c, e, h1, _, _⟩ := sp.fresh j hj hne
+    refine ⟨c, e, h1, ?_, ?_⟩
+    · simp only [hnb']; exact getElem?_map_node.mpr ⟨c, e, rfl⟩
+    · simp only [node_mem_layout hs]
+      intro hm; have := hlt c hm; omega
+  · intro j n hcase hn
+    dsimp only at hcase hn ⊢
+    simp only [hnb] at hn
+    obtain ⟨t, ht, rfl⟩ := getElem?_map_node.mp hn
+    simp only [node_mem_layout hs]
+    intro hm
+    obtain ⟨j', hj'⟩ := List.mem_iff_getElem?.mp hm
+    have hj'l : j' < new.length := by
+      have := (List.getElem?_eq_some_iff.mp hj').1
+      have := sp.length; omega
+    by_cases he : s.items[j']? = new[j']?
+    · have e := sp.reused j' hj'l he
+      rw [hj'] at e
+      have := nodup_getElem?_inj hM e.symm ht
+      subst this
+      rcases hcase with hcase | hcase
+      · omega
+      · exact hcase he
+    · obtain ⟨c, e, h1, _, _⟩ := sp.fresh j' hj'l he
+      rw [hj'] at e; cases e
+      have := hlt t (List.mem_of_getElem? ht); omega
+
+/-! ### histories of a mounted `Indexed` -/
+
+theorem indexedDomMount_inv {pre post : List Nat} (l0 : List Item) :
+    ∃ d0, indexedDomMount pre post l0 = .ok d0 ∧ IDInv pre post d0 ∧ d0.s.items = l0 := by
+  have hc0 : ICoh IState.init := by simp [ICoh, IState.init]
+  obtain ⟨s0, evs, hstep, sp⟩ := mapIndexed_spec IState.init l0 hc0
+  exact ⟨⟨s0, layout pre post s0.mapped⟩, by simp [indexedDomMount, hstep], ⟨sp.coh, rfl⟩, sp.items⟩
+
+/-- the states of an `Indexed` reachable from a mount by any updates -/
+inductive IDReach (pre post : List Nat) : IndexedDom → Prop
+  | mount {l0 : List Item} {d : IndexedDom} : indexedDomMount pre post l0 = .ok d → IDReach pre post d
+  | step {d d' : IndexedDom} {new : List Item} :
+      IDReach pre post d → indexedDomStep d new = .ok d' → IDReach pre post d'
+
+/-- a chain of updates throughout which position `j` exists and keeps its value -/
+inductive KeepsPos (j : Nat) (d : IndexedDom) : IndexedDom → Prop
+  | refl : KeepsPos j d d
+  | step {d' d'' : IndexedDom} {new : List Item} :
+      KeepsPos j d d' → j < new.length → d'.s.items[j]? = new[j]? → indexedDomStep d' new = .ok d'' →
+      KeepsPos j d d''
+
+/-- **C06 for `Indexed`, along histories.** (1) Every state reachable from a mount satisfies the invariant,
+hence every further update succeeds and satisfies `IndexedRegionSpec`. (2) Along every chain of updates
+throughout which a position keeps its value, the node at that position stays the very same node. -/
+theorem C06_indexed_history {pre post : List Nat} (hs : Siblings pre post) :
+    (∀ d, IDReach pre post d →
+      IDInv pre post d ∧
+      ∀ new, ∃ d', indexedDomStep d new = .ok d' ∧ IndexedRegionSpec pre post d new d') ∧
+    (∀ (j : Nat) (d d' : IndexedDom), IDInv pre post d → KeepsPos j d d' →
+      IDInv pre post d' ∧ d'.s.items[j]? = d.s.items[j]? ∧
+      ∀ n, (nodesBetween d.ch 1 2)[j]? = some n → (nodesBetween d'.ch 1 2)[j]? = some n) := by
+  constructor
+  · intro d hr
+    have hinv : IDInv pre post d := by
+      induction hr with
+      | mount hm =>
+        obtain ⟨d0, e, hi, _⟩ := indexedDomMount_inv (pre := pre) (post := post) _
+        rw [hm] at e; cases e; exact hi
+      | step _ hstep ih =>
+        obtain ⟨d2, e, sp⟩ := C06_indexed_region hs _ _ ih
+        rw [hstep] at e; cases e; exact sp.inv
+    exact ⟨hinv, fun new => C06_indexed_region hs d new hinv⟩
+  · intro j d d' hinv hchain
+    induction hchain with
+    | refl => exact ⟨hinv, rfl, fun n h => h⟩
+    | @step d2 d3 new _ hj he hstep ih =>
+      obtain ⟨hinv1, hit, ih⟩ := ih
+      obtain ⟨d4, e, sp⟩ := C06_indexed_region hs _ _ hinv1
+      rw [hstep] at e; cases e
+      refine ⟨sp.inv, by rw [sp.items, ← he, hit], ?_⟩
+      intro n hn
+      obtain ⟨m, hm1, hm2⟩ := sp.reused j hj he
+      rw [ih n hn] at hm1; cases hm1
+      exact hm2
+
+/-! ## The driver's instance and non-vacuity -/
+
+/-- the driver's children list: `[0, 1] ++ mapped.map (· + 10) ++ [2, 3]` -/
+theorem C06_keyed_region_driver (d : KeyedDom) (new : List Item)
+    (h : KCoh d.s ∧ d.ch = [0, 1] ++ d.s.mapped.map (· + 10) ++ [2, 3]) (hnew : (keys new).Nodup) :
+    ∃ d', keyedDomStep d new = .ok d' ∧
+      (KCoh d'.s ∧ d'.ch = [0, 1] ++ d'.s.mapped.map (· + 10) ++ [2, 3]) ∧
+      KeyedRegionSpec [0] [3] d new d' := by
+  obtain ⟨d', h1, sp⟩ := C06_keyed_region siblings_driver d new ⟨h.1, by rw [h.2, layout_driver]⟩ hnew
+  exact ⟨d', h1, ⟨sp.inv.1, by rw [sp.inv.2, layout_driver]⟩, sp⟩
+
+theorem C06_indexed_region_driver (d : IndexedDom) (new : List Item)
+    (h : ICoh d.s ∧ d.ch = [0, 1] ++ d.s.mapped.map (· + 10) ++ [2, 3]) :
+    ∃ d', indexedDomStep d new = .ok d' ∧
+      (ICoh d'.s ∧ d'.ch = [0, 1] ++ d'.s.mapped.map (· + 10) ++ [2, 3]) ∧
+      IndexedRegionSpec [0] [3] d new d' := by
+  obtain ⟨d', h1, sp⟩ := C06_indexed_region siblings_driver d new ⟨h.1, by rw [h.2, layout_driver]⟩
+  exact ⟨d', h1, ⟨sp.inv.1, by rw [sp.inv.2, layout_driver]⟩, sp⟩
+
+/-- mount `[1,2,3]`: nodes 10, 11, 12 between the markers -/
+example : (keyedDomMount [0] [3] [⟨1, 0⟩, ⟨2, 0⟩, ⟨3, 0⟩]).toOption.map (·.ch) = some [0, 1, 10, 11, 12, 2, 3] := by
+  decide
+
+/-- `[1,2,3] → [3,4,1']`: key 3 keeps node 12, key 1 keeps node 10 (payload changed), key 4 gets the new
+node 13, node 11 (key 2) is gone -/
+example :
+    (keyedDomStep ⟨⟨[⟨1, 0⟩, ⟨2, 0⟩, ⟨3, 0⟩], [0, 1, 2], [some 0, some 1, some 2], 3⟩, [0, 1, 10, 11, 12, 2, 3]⟩
+      [⟨3, 0⟩, ⟨4, 0⟩, ⟨1, 1⟩]).toOption.map (·.ch) = some [0, 1, 12, 13, 10, 2, 3] := by
+  decide
+
+/-- `Indexed`, `[a,b,c] → [a,b',c,d]`: positions 0 and 2 keep nodes 10 and 12, position 1 gets node 13,
+the new position 3 gets node 14 -/
+example :
+    (indexedDomStep ⟨⟨[⟨1, 0⟩, ⟨2, 0⟩, ⟨3, 0⟩], [0, 1, 2], [0, 1, 2], 3⟩, [0, 1, 10, 11, 12, 2, 3]⟩
+      [⟨1, 0⟩, ⟨2, 5⟩, ⟨3, 0⟩, ⟨4, 0⟩]).toOption.map (·.ch) = some [0, 1, 10, 13, 12, 14, 2, 3] := by
+  decide
+
+/-- the hypotheses of `C06_keyed_region` are satisfiable -/
+example : KDInv [0] [3]
+    ⟨⟨[⟨1, 0⟩, ⟨2, 0⟩, ⟨3, 0⟩], [0, 1, 2], [some 0, some 1, some 2], 3⟩, [0, 1, 10, 11, 12, 2, 3]⟩ := by
+  simp [KDInv, KCoh, keys, layout]
+
+section AxiomCheck
+/-- info: 'SycVerif.KeyedDom.C06_keyed_region' depends on axioms: [propext, Classical.choice, Quot.sound] -/
+#guard_msgs in #print axioms C06_keyed_region
+/-- info: 'SycVerif.KeyedDom.C06_keyed_history' depends on axioms: [propext, Classical.choice, Quot.sound] -/
+#guard_msgs in #print axioms C06_keyed_history
+/-- info: 'SycVerif.KeyedDom.C06_keyed_history_born' depends on axioms: [propext, Classical.choice, Quot.sound] -/
+#guard_msgs in #print axioms C06_keyed_history_born
+/-- info: 'SycVerif.KeyedDom.C06_indexed_region' depends on axioms: [propext, Classical.choice, Quot.sound] -/
+#guard_msgs in #print axioms C06_indexed_region
+/-- info: 'SycVerif.KeyedDom.C06_indexed_history' depends on axioms: [propext, Classical.choice, Quot.sound] -/
+#guard_msgs in #print axioms C06_indexed_history
+end AxiomCheck
+
 end SycVerif.KeyedDom
